@@ -302,7 +302,7 @@ func (w *aWorld) genPatches(failing bool, create bool) []workload.PatchDesc {
 		case workload.AddSvc, workload.RemoveSvc:
 			out = append(out, workload.PatchDesc{Kind: kind, IDs: pickIDs(workload.SvcIDs()), Mark: mark})
 		case workload.AddAKA, workload.RemoveAKA:
-			out = append(out, workload.PatchDesc{Kind: kind, IDs: pickIDs([]string{"https://a.example/1", "https://a.example/2", "did:ex:3"}), Mark: mark})
+			out = append(out, workload.PatchDesc{Kind: kind, IDs: pickIDs([]string{"https://a.example/1", "https://a.example/\u00fc?x=1&y=<2>", "did:ex:3"}), Mark: mark})
 		case workload.ReplaceNote:
 			// the JSON patch tests the current value first: it applies when the guess is right, fails (atomically) otherwise
 			guess := w.lastNote
